@@ -171,6 +171,7 @@ func runC17(p *core.Prog, r *core.Report) {
 	c17R7(p, r)
 	c17R8(p, r)
 	c17R9(p, r)
+	c17R11(p, r)
 	c17R10(p, r)
 }
 
@@ -1307,5 +1308,231 @@ func c17R10(p *core.Prog, r *core.Report) {
 	}
 	if n == 0 {
 		r.MissingAnchor(rule, "reghttp Do / queue Acquire calls in the schemes")
+	}
+}
+
+// ---------------------------------------------------------------------------------------------
+// R11 every response is closed or handed on
+
+// c17R11: a response holds the slot of its host's request queue until Close. A function that sends a
+// request and returns without closing the response, deferring the close, or handing the response to
+// whoever will close it (a blob reader, a returned value, a field) loses the slot for the lifetime
+// of the client.
+func c17R11(p *core.Prog, r *core.Report) {
+	const rule = "C17.R11"
+	r.Rule(rule, "every response gives its slot back: in scheme/reg, from the success edge of a reghttp Do no return is reachable before the response is closed (a call or a deferred call of Close, directly, in a literal or in a helper that is handed the response), returned, stored, or handed to another function (a reader that closes it); the response-is-nil edge holds nothing (found D24 on the unchanged tree: BlobDelete never closed its response)", 5)
+	isDo := func(f *types.Func) bool { return core.IsModMethod(f, "internal/reghttp", "Client", "Do") }
+	n := 0
+	for _, fn := range pkgFuncs(p, "scheme/reg") {
+		lab := labeler{}
+		for _, c := range core.CallsTo(fn, isDo) {
+			do, ok := c.(*ssa.Call)
+			if !ok {
+				continue
+			}
+			n++
+			label := lab.next("response of Do closed")
+			fromDo := func(v ssa.Value) bool {
+				if v == nil || !core.IsModNamed(v.Type(), "internal/reghttp", "Resp") {
+					return false
+				}
+				for _, oc := range originCalls(v) {
+					if oc == do {
+						return true
+					}
+				}
+				return false
+			}
+			// a literal that closes the captured response
+			litCloses := func(mc *ssa.MakeClosure) bool {
+				lit, _ := mc.Fn.(*ssa.Function)
+				if lit == nil {
+					return false
+				}
+				found := false
+				core.Calls(lit, func(hc ssa.CallInstruction) {
+					if hcal := core.Callee(hc); hcal != nil && hcal.Name() == "Close" {
+						a := core.CallArg(hc, 0)
+						if a != nil && core.IsModNamed(a.Type(), "internal/reghttp", "Resp") {
+							for _, o := range core.Origins(a, core.SliceOpts{}) {
+								if o.Kind == core.OFree || (o.Kind == core.OCall && o.Call == do) {
+									found = true
+								}
+							}
+						}
+					}
+				})
+				if !found {
+					return false
+				}
+				// the literal must capture this response (its cell or value)
+				for _, b := range mc.Bindings {
+					if fromDo(b) {
+						return true
+					}
+					if al, ok := b.(*ssa.Alloc); ok {
+						for _, st := range core.StoresToCell(al) {
+							if fromDo(st.Val) {
+								return true
+							}
+						}
+					}
+				}
+				return false
+			}
+			releases := func(in ssa.Instruction) bool {
+				switch x := in.(type) {
+				case *ssa.Return:
+					for _, v := range x.Results {
+						if fromDo(v) {
+							return true
+						}
+					}
+					return false
+				case *ssa.Store:
+					if fromDo(x.Val) {
+						if _, isAlloc := x.Addr.(*ssa.Alloc); !isAlloc {
+							return true // stored into a field / element: ownership moves
+						}
+					}
+					return false
+				}
+				cc, ok := in.(ssa.CallInstruction)
+				if !ok {
+					return false
+				}
+				if mc, ok := cc.Common().Value.(*ssa.MakeClosure); ok && litCloses(mc) {
+					return true
+				}
+				cal := core.Callee(cc)
+				if cal != nil && cal.Name() == "Close" && fromDo(core.CallArg(cc, 0)) {
+					return true
+				}
+				// handed to another function (not one of the response's own methods)
+				args := cc.Common().Args
+				start := 0
+				if cal != nil {
+					if sig, ok := cal.Type().(*types.Signature); ok && sig.Recv() != nil && !cc.Common().IsInvoke() {
+						if len(args) > 0 && fromDo(args[0]) {
+							start = 1 // a method of the response itself does not take it over
+						}
+					}
+				}
+				for _, a := range args[start:] {
+					for _, e := range variadicElems(a) {
+						if fromDo(underIface(e)) {
+							return true
+						}
+					}
+				}
+				return false
+			}
+			respNil := func(from, to *ssa.BasicBlock) bool {
+				ifi, ok := core.LastInstr(from).(*ssa.If)
+				if !ok {
+					return false
+				}
+				cnd, pol := core.StripNot(ifi.Cond, true)
+				bo, ok := cnd.(*ssa.BinOp)
+				if !ok || (bo.Op != token.EQL && bo.Op != token.NEQ) {
+					return false
+				}
+				var x ssa.Value
+				switch {
+				case core.IsNilConst(bo.Y):
+					x = bo.X
+				case core.IsNilConst(bo.X):
+					x = bo.Y
+				default:
+					return false
+				}
+				if !fromDo(x) {
+					return false
+				}
+				nilSucc := from.Succs[0]
+				if (bo.Op == token.EQL) != pol {
+					nilSucc = from.Succs[1]
+				}
+				return to == nilSucc
+			}
+			// path sensitivity for the usual shape `resp, err := Do(); if err != nil && fallback { resp, err = Do() }; if err != nil { return }`:
+			// on a path that starts at the success edge of this request, a later test of a phi of errors
+			// whose incoming values on the blocks reachable from that edge are this request's (nil) error
+			// cannot take its failure edge
+			isDoErr := func(v ssa.Value) bool {
+				if core.IsNilConst(v) {
+					return true
+				}
+				ex, ok := v.(*ssa.Extract)
+				return ok && ex.Tuple == ssa.Value(do) && isErr(ex.Type())
+			}
+			errPhiCut := func(start [2]*ssa.BasicBlock) func(from, to *ssa.BasicBlock) bool {
+				r0 := map[*ssa.BasicBlock]bool{start[0]: true}
+				var walk func(b *ssa.BasicBlock)
+				walk = func(b *ssa.BasicBlock) {
+					if r0[b] && b != start[0] {
+						return
+					}
+					if b != start[0] {
+						r0[b] = true
+					}
+					for _, s := range b.Succs {
+						if !r0[s] {
+							walk(s)
+						}
+					}
+				}
+				walk(start[1])
+				return func(from, to *ssa.BasicBlock) bool {
+					if respNil(from, to) {
+						return true
+					}
+					ifi, ok := core.LastInstr(from).(*ssa.If)
+					if !ok {
+						return false
+					}
+					cnd, pol := core.StripNot(ifi.Cond, true)
+					x, neq, ok := errCmpNil(cnd)
+					if !ok {
+						return false
+					}
+					ph, ok := x.(*ssa.Phi)
+					if !ok || ph.Block() != from {
+						return false
+					}
+					for i, pr := range from.Preds {
+						if r0[pr] && !isDoErr(ph.Edges[i]) {
+							return false
+						}
+					}
+					failSucc := from.Succs[0]
+					if neq != pol {
+						failSucc = from.Succs[1]
+					}
+					return to == failSucc
+				}
+			}
+			bad := ""
+			edges := nilEdgesOf(fn, do)
+			check := func(seen map[ssa.Instruction]bool) {
+				for in := range seen {
+					if ret, ok := in.(*ssa.Return); ok && !releases(ret) {
+						if pos := p.Pos(ret.Pos()); bad == "" || pos < bad {
+							bad = pos
+						}
+					}
+				}
+			}
+			if len(edges) == 0 {
+				check(core.Reach{Stop: releases, StopEdge: respNil}.FromInstr(do))
+			}
+			for _, e := range edges {
+				check(core.Reach{Stop: releases, StopEdge: errPhiCut(e)}.FromEdge(e[0], e[1]))
+			}
+			r.Check(bad == "", rule, p.FuncName(fn), label, p.Pos(do.Pos()), "the return at "+bad+" is reachable from the success edge of this request without the response being closed, deferred-closed, returned, stored or handed on: the request slot of the host stays taken for the lifetime of the client")
+		}
+	}
+	if n == 0 {
+		r.MissingAnchor(rule, "reghttp Do calls in scheme/reg")
 	}
 }
